@@ -6,23 +6,26 @@ WIDTH = {"crc16_t10dif": 1, "crc32_ieee": 2, "crc32_gzip_refl": 2, "crc32_iscsi"
 for x in ("ecma", "iso", "jones", "rocksoft"):
     for y in ("refl", "norm"): WIDTH["crc64_%s_%s" % (x, y)] = 4
 
-def run(tier, replay=None):
-    v = Verdict("C04", tier)
+MEMORY_KINDS = ("fault", "source-modified", "write-outside-destination")
+def run(tier, replay=None, v=None, memory_only=False):
+    own = v is None
+    if own: v = Verdict("C04", tier)
     rng = random.Random(seed() * 15485863 + 4)
     wd = workdir("c04")
     N = 4200 if tier == "thorough" else 1100
+    if memory_only: N = 700
     recs = []
     for fn, nl in sorted(WIDTH.items()):
         if fn.startswith("adler"):
             seeds = [[1, 0], [65520, 65520], [rng.randrange(65521), rng.randrange(65521)], [0, 0], [rng.randrange(65521), rng.randrange(65521)]]
         else:
             seeds = [[0] * nl, [65535] * nl] + [[rng.randrange(65536) for _ in range(nl)] for _ in range(3)]
-        for si, sd in enumerate(seeds if tier == "thorough" else seeds[:3]):
+        for si, sd in enumerate(seeds[:1] if memory_only else seeds if tier == "thorough" else seeds[:3]):
             style = (si + len(recs)) % 3
             n = N if si < 2 else N // 2 + rng.randrange(50)
             msg = [rng.randrange(256) for _ in range(n)] if style == 0 else [255] * n if style == 1 else [rng.choice([0, 0, 0, 255, 1]) for _ in range(n)]
             recs.append({"id": len(recs), "fn": fn, "seed": sd, "msg": msg, "final_only": False})
-        if tier == "thorough":   # one large message per function (>= 1 MiB for adler's NMAX-style reductions; 256 KiB for the CRCs)
+        if tier == "thorough" and not memory_only:   # one large message per function (>= 1 MiB for adler's NMAX-style reductions; 256 KiB for the CRCs)
             big = (1 << 20) + 77 if fn.startswith("adler") else (1 << 18) + 77
             recs.append({"id": len(recs), "fn": fn, "seed": seeds[1], "msg": [255 if fn.startswith("adler") else rng.randrange(256) for _ in range(big)], "final_only": True})
     inp, outp = os.path.join(wd, "in.ndjson"), os.path.join(wd, "vec.ndjson")
@@ -53,11 +56,15 @@ def run(tier, replay=None):
     summ = [o for o in out if o["e"] == "summary"][0]
     for m in out:
         if m["e"] != "mismatch": continue
+        if memory_only and m["what"] not in MEMORY_KINDS: continue
         rec = recs[m["vec"]]
         v.violation("%s:%s" % (m["fn"], m["what"]), "%s %s: vector %d (%s seed %s) len=%d placement=%d off/split=%d" %
                     (m["fn"], m["what"], m["vec"], rec["fn"], rec["seed"], m["len"], m["placement"], m["off"]),
                     {"mismatch": m, "fn": rec["fn"], "seed_limbs": rec["seed"], "msg": rec["msg"][:5000], "verif_seed": seed(), "tier": tier})
-    if summ["mismatches"] > 40: v.violation("many", "%d mismatches" % summ["mismatches"], {})
+    if summ["mismatches"] > 40 and not memory_only: v.violation("many", "%d mismatches" % summ["mismatches"], {})
+    if not own:
+        cleanup(wd)
+        return {"calls": summ["calls"], "faults": summ["faults"]}
     exercised = sorted(k for k, c in summ["variants"].items() if c > 0)
     missing = sorted(k for k, c in summ["variants"].items() if c <= 0)
     cov = {"evaluations": summ["calls"], "distinct_nontrivial": summ["calls"] - 3 * len(recs) * 5, "split_points": summ["splits"], "vectors": len(recs),
